@@ -34,6 +34,15 @@ Definition ex_history2 : list xevent :=
     XCmd 11%N (XCode c_PR_COMMAND_KICK [(Abs [None; None], None)]);
     XCmd 12%N (XBase (CSubscribe false [(Abs [None; None; None], None)])) ].
 
+(* 12 (on another host) holds PR_PRIVILEGE_KICK: it kicks 11, whose later command goes nowhere, and then everybody on host 1 *)
+Definition ex_history3 : list xevent :=
+  [ XAttach 10%N 1%N 10%N 0%N; XAttach 11%N 1%N 11%N 0%N; XAttach 12%N 2%N 12%N 1%N;
+    XCmd 10%N (XBase (CSubscribe false [(Rel [None], None); (Rel [Some 7%N], None)]));
+    XCmd 11%N (XSetData 0%N [((false, [7%N]), 5%N); ((false, [8%N; 9%N]), 6%N); ((true, [1%N; 10%N; 7%N]), 9%N)]);
+    XCmd 12%N (XBatch [XCode c_PR_COMMAND_KICK [(Abs [None; Some 11%N], None)]; XBase (CSubscribe false [(Abs [None; None; None], None)])]);
+    XCmd 11%N (XSetData 0%N [((false, [7%N]), 6%N)]);
+    XCmd 12%N (XCode c_PR_COMMAND_KICK [(Abs [Some 1%N; None], None)]) ].
+
 (* the example instance satisfies the laws the theorems assume of the matching code *)
 #[export] Instance ExLaws : MatchLaws ExOps.
 Proof.
